@@ -523,7 +523,7 @@ func runWuffs(r *hlib.Run) {
 	}
 	nFile, nDecl := 40, 2200
 	if r.Thorough {
-		nFile, nDecl = 6000, 400000
+		nFile, nDecl = 600, 50000
 	}
 	for i := 0; i < nFile && len(srcs) > 0; i++ {
 		cases = append(cases, wcase{perturb(rnd, srcs[rnd.Intn(len(srcs))], r), "perturbed-file"})
@@ -614,7 +614,14 @@ func runWuffs(r *hlib.Run) {
 			r.Count("wuffs:repo-file-not-a-fixed-point")
 		}
 		if len(resp) >= 4 && len(resp[2]) > 0 {
-			failK(r, string(resp[2]), string(resp[3]), replay)
+			key := string(resp[2])
+			if failSeen[key] < 3 && len(c.src) > 300 {
+				// shrink the replay: delete line ranges while the same key keeps failing
+				small := minimiseWuffs(c.src, key)
+				replay = "wuffsfmt " + hlib.Hex(small) + "\n--- reduced source ---\n" + string(small) +
+					"\n--- original (" + c.origin + "), hex ---\n" + hlib.Hex(c.src)
+			}
+			failK(r, key, string(resp[3]), replay)
 		}
 	}
 	r.Extra("wuffs_oracle_cases", accepted)
